@@ -46,6 +46,7 @@ static void c15_on_answer(const rd_msg *m, const unsigned char *msg, int len, in
 	FM_COUNT_FRAG();
 	int dlen = n - 2;
 	int seq = (pl[1] >> 5) & 7, frag = (pl[1] >> 1) & 15, last = pl[1] & 1;
+	if (getenv("FM_DEBUG")) dprintf(2, "fragmon: sess %d F %d answer carries %d bytes seq %d frag %d last %d (asm total %d)\n", sess, f->F, dlen, seq, frag, last, f->total);
 	if (dlen > f->F) viol("fragment-larger-than-negotiated", "session %d negotiated %d but an answer carries %d payload bytes (seq %d frag %d)", sess, f->F, dlen, seq, frag);
 	if (dlen == 0) return;
 	if (seq != f->cur_seq || (frag == 0 && f->finished)) {
